@@ -691,6 +691,25 @@ def run_corral(case, driver):
             tags.append("nested:inner-corral-reward-outside-unit-interval")
             break
         before = full_state() if a_on else None
+        nested_before = None
+        if a_on and inner:
+            # the states of the nested Corrals (and the info of their last predict) for the composite model `tower 2`
+            nested_before = [{"leaf": True} for _ in case["bases"]]
+            for j, x in inner:
+                b = case["bases"][j]
+                try:
+                    iinfo = recs[j].preds[-1][1][2]["info"]
+                    iacts = [find_idx(actions, v) for v in iinfo[0]]
+                except Exception:
+                    iacts = [None]
+                if any(i is None for i in iacts):
+                    nested_before = None
+                    break
+                Tj = math.inf if b["T"] == "inf" else num(b["T"])
+                stj = corral_state(x, 0)
+                stj.update({"gamma": q(1 / Tj), "beta": q(1 / math.exp(1 / math.log(Tj))), "imp": b["mode"] == "importance"})
+                nested_before[j] = {"mis": b.get("mis", []), "state": stj, "lastActs": [ids[i] for i in iacts],
+                                    "lastProbs": [q(float(v)) for v in iinfo[1]]}
         bprobs = list(info["info"][1])
         binfos = list(info["info"][2])
         try:
@@ -742,6 +761,54 @@ def run_corral(case, driver):
                     if gi is None or ids[gi] != exp_id or not close(gr, exp_r) or not close(gp, exp_p):
                         A("round %d: base learner %d was taught (%r,%r,%r), model (%d,%r,%r)" % (k, j, ga, gr, gp, exp_id, exp_r, exp_p), "feedback")
                         break
+                # the float-faithful model of _log_barrier_omd (same loop on the double carrier, every operation rounded): compared at 1e-12
+                def omd_exact(tag_, ps0, etas0, losses, got):
+                    mo_ = driver.ask({"kind": "omdF", "ps": ps0, "etas": etas0, "losses": [q(float(v)) for v in losses]})
+                    if "err" in mo_:
+                        A("round %d %s: float-faithful model of _log_barrier_omd fails (%s), the implementation returned %s" % (k, tag_, mo_["err"], got), "omd-float")
+                        return
+                    if not mo_["halted"]:
+                        fails.append(F("C", "model: the bisection on the double carrier did not leave by its own exits", "C:corral-search-fuel"))
+                    exp_ = [float(unq(v)) for v in mo_["ps"]]
+                    if len(exp_) != len(got) or any(not close(g, e, 1e-12, 0) for g, e in zip(got, exp_)):
+                        A("round %d %s: _log_barrier_omd(%s, %s, %s) implementation %s, float-faithful model %s" % (
+                            k, tag_, [fnum(v) for v in ps0], losses, [fnum(v) for v in etas0], got, exp_), "omd-float")
+                tags.append("A:omd-float-faithful")
+                do_float = k < 12 or k % 5 == 0          # (cost) every round at the start of a history, then every fifth
+                if do_float:
+                    omd_exact("outer", before["ps"], before["etas"], [(1 - r_in) / lp * (bidx[j] == la) for j in range(M)], [float(v) for v in c._ps])
+                if nested_before is not None and do_float:
+                    for j, x in inner:
+                        if len(recs[j].learns) == 1:
+                            ga, gr, gp, _ = recs[j].learns[0]
+                            rj_ = misguide_float(case["bases"][j].get("mis", []), gr)
+                            omd_exact("nested Corral (base %d)" % j, nested_before[j]["state"]["ps"], nested_before[j]["state"]["etas"],
+                                      [(1 - rj_) / gp * (ia == ids[find_idx(actions, ga)]) for ia in nested_before[j]["lastActs"]], [float(v) for v in x._ps])
+                if not ans.get("halted", True):
+                    fails.append(F("C", "model: the exact bisection did not leave by one of its own exits within the fuel", "C:corral-search-fuel"))
+                if nested_before is not None:
+                    tags.append("A:nested-composite-learn")
+                    ans2 = driver.ask({"kind": "nested_learn", "a": ids[la], "r": q(r), "p": q(lp),
+                                       "node": {"mis": mis, "state": before, "lastActs": [ids[i] for i in bidx],
+                                                "lastProbs": [q(float(x)) for x in bprobs], "bases": nested_before}})
+                    if "err" in ans2:
+                        A("round %d: the composite model (Corral over Corral) raises %s, the implementation did not" % (k, ans2["err"]), "nested-learn-err")
+                    else:
+                        for j, x in inner:
+                            mj = ans2["inner"][j]
+                            fbj = ans["feedback"][j]
+                            rj = misguide_float(case["bases"][j].get("mis", []), float(unq(fbj[1])))
+                            pj = float(unq(fbj[2])) if case["mode"] == "importance" else lp
+                            bj = nested_before[j]["state"]
+                            if (1 - rj) / lp * max(fnum(e_) for e_ in bj["etas"]) > 1e9 or min(fnum(v) for v in bj["ps"]) < 1e-9:
+                                tags.append("A-skipped:ill-conditioned-update")
+                                continue
+                            for key, attr in (("ps", "_ps"), ("pbars", "_p_bars")):
+                                got = [float(v) for v in getattr(x, attr)]
+                                exp = [float(unq(v)) for v in mj[key]]
+                                if len(got) != len(exp) or any(abs(g - e) > 2.5e-4 for g, e in zip(got, exp)):
+                                    A("round %d: nested Corral (base %d) %s after the outer learn: implementation %s, composite model %s" % (k, j, key, got, exp), "nested-weights")
+                                    break
                 msps, mspb = [unq(x) for x in ans["state"]["ps"]], [unq(x) for x in ans["state"]["pbars"]]
                 if sum(msps) != 1 or min(msps) <= 0 or sum(mspb) != 1 or min(mspb) <= 0:
                     fails.append(F("C", "model: Corral weights after the update are not a strictly positive distribution", "C:corral-weights"))
@@ -779,6 +846,32 @@ def run_corral(case, driver):
     else:
         tags.append("regime:benign")
     return {"fails": fails, "nontrivial": rounds >= 2, "tags": sorted(set(tags)), "impl": impl, "model": None}
+
+
+def run_witness(case, driver):
+    """replays of Lean witnesses on the real code (only model = implementation is compared)"""
+    from coba.learners import CorralLearner, RandomLearner
+    fails, impl = [], {}
+    if case["name"] == "importance_feedback_unbounded":
+        # Props.C16.corral_importance_feedback_unbounded: reward 1 at probability 1/2 reaches the base learner as 2, a Corral rejects 2
+        rec = Rec(CorralLearner([RandomLearner(seed=1)], seed=2))
+        outer = CorralLearner([rec], mode="importance", seed=3)
+        a, p, info = outer.predict(None, ["x"])
+        try:
+            outer.learn(None, a, 1, 0.5, **info)
+            impl["outer"] = "ok"
+        except AssertionError:
+            impl["outer"] = "AssertionError"
+        impl["fed"] = [list(x[:3]) for x in rec.learns]
+        if impl["outer"] != "AssertionError" or not rec.learns or rec.learns[0][1] != 2:
+            fails.append(F("A", "witness importance_feedback_unbounded no longer replays: %s" % impl, "A:witness-importance-unbounded"))
+        if driver is not None:
+            st = driver.ask({"kind": "corral_init", "M": 1, "eta": q(0.075), "gamma": [0, 1], "beta": [1, 1], "imp": True, "seed": {"int": 2}})["state"]
+            st.update({"gamma": [0, 1], "beta": [1, 1], "imp": True})
+            mo = driver.ask({"kind": "corral", "state": st, "op": {"op": "learn", "bacts": [0], "a": 0, "r": [2, 1], "p": [1, 1], "bprobs": [[1, 1]]}})["out"]
+            if mo.get("err") != "AssertionError":
+                fails.append(F("A", "model: Corral.learn with reward 2 gives %s" % mo, "A:witness-importance-unbounded"))
+    return {"fails": fails, "nontrivial": False, "tags": ["kind:witness"], "impl": impl, "model": None}
 
 
 # ---------------------------------------------------------------- generators
@@ -1042,6 +1135,13 @@ class C16(Property):
         "BanditUCB's index m+sqrt(ln t/s*min(1/4,V)) (libm log/sqrt) is an arbitrary function in the model; for the correspondence its values are recomputed "
         "in the harness with the same float formulas",
         "actions are identified by their ==-class after make_hashable; the harness assigns the classes (pairwise-unequal catalog with aliases)",
+        "Corral, float-faithful part: `omdF` mirrors _log_barrier_omd operation by operation through `fl` (incl. CPython 3.12's Neumaier `sum`, the rounded "
+        "midpoint, the same `bisect` loop); with flDouble its output is compared with the real function's at 1e-12 on the outer and every nested Corral "
+        "(every round for the first 12 rounds of a history, then every fifth); theorems about it are for every fl; that IEEE rounding is monotone "
+        "(so the rounded midpoint stays in the bracket) and that doubles are finitely many is the hypothesis (D, rank, hmid) of omd_float_halts, not proved",
+        "Nested compositions: `tower fl 2` (Corral over plain learners and Corrals over plain learners) is evaluated per learn call from the implementation's "
+        "own states of all Corral nodes, plain learners replaced by stateless dummies (their learn is unobservable); nested weights compared at 2.5e-4",
+        "first_bracket_has_root is over the reals (Mathlib IVT), tied to the rational model by omd_model_is_barrier / omd_defined_iff_below",
         "Corral: the model is the repaired _log_barrier_omd (fixes/C16-corral-omd-root.diff) over exact arithmetic; each update is compared from the "
         "implementation's own previous weights at 2.5e-4 (the accuracy of the root search), skipped when eta*loss/probability > 1e9 or a weight < 1e-9 "
         "(float cancellation); SafeLearner around the base learners is not modelled (identity on (action, probability) predictions)",
@@ -1052,7 +1152,12 @@ class C16(Property):
                    "'Corral over any of them'; an importance-mode Corral hands a base Corral reward/probability > 1, which that Corral rejects by assertion (its documented "
                    "[0,1] requirement): such rounds are outside the quantifier",
                    "(B) tolerances: score sums to 1 within 1e-9 (float), Corral weights within 1e-4 (stated in the property)"]
-    partial_theorems = {}
+    partial_theorems = {
+        "corral_nested_valid": "forced hypothesis `accepts`: every Corral at or below a learner must be handed a reward in [0,1]; importance-mode feedback "
+                               "reward/probability violates it for a nested Corral (corral_importance_feedback_unbounded, replayed as corpus witness)",
+        "omd_float_halts": "termination on the double carrier assumes the rounded midpoint stays inside the bracket and in the carrier (monotone rounding); "
+                           "the bound is the number of doubles inside the bracket, not logarithmic",
+    }
 
     def generate(self, rng, tier):
         if rng.chance(0.7):
@@ -1107,6 +1212,7 @@ class C16(Property):
                        "eta": q(0.075), "T": "inf", "mode": imode, "seed": 4, "mis": [[q(0.25), q(0.5)]]},
                       {"type": "eps", "eps": q(0.1), "seed": 9, "mis": [[[1, 1], [-1, 1]]]}]
                 cs.append({"t": "corral", "bases": nb, "eta": q(0.1), "T": [50, 1], "mode": mode, "seed": 4, "pool": pool, "hist": rounds(40, how="on")})
+        cs.append({"t": "witness", "name": "importance_feedback_unbounded", "hist": []})
         # replays of recorded (now fixed) findings and other hand-made cases: corpus/C16/*.json
         d = os.path.join(os.path.dirname(os.path.dirname(os.path.dirname(os.path.abspath(__file__)))), "corpus", "C16")
         if os.path.isdir(d):
@@ -1118,11 +1224,15 @@ class C16(Property):
 
     def evaluate(self, case, driver):
         # the learners under test keep all state in the instances built here (no module-level state is touched)
+        if case["t"] == "witness":
+            return run_witness(case, driver)
         if case["t"] == "bandit":
             return run_bandit(case, driver)
         return run_corral(case, driver)
 
     def shrink(self, case):
+        if case["t"] == "witness":
+            return
         hist = case["hist"]
         n = len(hist)
         for cut in (n // 2, n - 1):
@@ -1154,6 +1264,8 @@ class C16(Property):
 
     def snippet(self, case):
         try:
+            if case["t"] == "witness":
+                return "# witness %s: see run_witness in harness/props/c16.py\n" % case.get("name")
             return snippet_bandit(case) if case["t"] == "bandit" else snippet_corral(case)
         except Exception as e:      # never let a reporting helper hide the finding
             return "# snippet generation failed: %r\n# case: %s\n" % (e, json.dumps(case))
